@@ -25,7 +25,8 @@ def V(pid, sig, msg, step=None):
 # ===========================================================================
 # C04: stray replies change nothing
 
-STRAY_KINDS = ["stale", "stale", "stale", "badtag", "badtag", "unknown_svc", "not_awaited", "not_awaited", "case_svc", "future"]
+STRAY_KINDS = ["stale", "stale", "stale", "stale_any", "stale_shape", "stale_shape", "badtag", "badtag", "unknown_svc",
+               "not_awaited", "not_awaited", "not_awaited", "not_awaited", "case_svc", "future"]
 BAD_TAGS = ["%(id)x", "%(id)x-%(ser)x", "%(id)x_%(ser)xz", "%(id)x_%(ser)x_", "g%(id)x_%(ser)x", "%(id)x_", "_%(ser)x",
             "%(id)x_%(ser)x %(ser)x", "%(id)x__%(ser)x", "0x_%(ser)x", "%(id)x_-"]
 
@@ -33,6 +34,14 @@ BAD_TAGS = ["%(id)x", "%(id)x-%(ser)x", "%(id)x_%(ser)xz", "%(id)x_%(ser)x_", "g
 @st.composite
 def c04_s(draw, pid, tier, opts=None):
     base = draw(ep.history_s("C04", tier))
+    # optional filler announcements so that serial numbers get several hex digits
+    k = draw(st.sampled_from([0, 0, 0, 0, 14, 15, 16, 30, 255, 256]))
+    if k:
+        filler = []
+        for i in range(k):
+            filler.append(["C", 99, "127.0.0.1", 1000 + i % 50000])
+        filler.append(["D", 99])
+        base["events"] = filler + base["events"]
     n = len(base["events"])
     ids = sorted({e[1] for e in base["events"] if e[0] == "C"})
     stray = {
@@ -42,7 +51,9 @@ def c04_s(draw, pid, tier, opts=None):
         "reply": draw(ep.reply_s(["OK", "OKA", "OKA", "NO", "NO", "AGAIN", "MORE", "MORE"])),
         "unlinked": draw(st.integers(0, 7)) == 0,
         "badtag": draw(st.sampled_from(BAD_TAGS)),
-        "pos": draw(st.integers(0, n)),
+        "shape": draw(st.sampled_from(["prefix", "prefix", "times16", "plus16", "lead0", "drop_last", "append0", "upper"])),
+        "pick": draw(st.integers(0, 50)),
+        "pos": draw(st.integers(k + 1 if k else 0, n)),
     }
     base["stray"] = stray
     return base
@@ -60,6 +71,15 @@ def stray_line(stray, conf, spec):
     tag = "%x_%x" % (cid & 0xffffffff, ser)
     if kind == "stale":
         tag = "%x_%x" % (cid & 0xffffffff, ser - 1 if ser > 1 else ser + 7)
+    elif kind == "stale_any":
+        olds = [i.serial for i in spec.all if i.id == cid and i.serial != ser] or [ser + 3]
+        tag = "%x_%x" % (cid & 0xffffffff, olds[stray.get("pick", 0) % len(olds)])
+    elif kind == "stale_shape":
+        h = "%x" % ser
+        sh = stray.get("shape", "prefix")
+        t = {"prefix": h[:max(1, len(h) - 1)] if len(h) > 1 else "%x" % (ser + 1), "times16": h + "0", "plus16": "%x" % (ser + 16),
+             "lead0": "0" + h, "drop_last": h[:-1] or "0", "append0": h + "00", "upper": h.upper()}[sh]
+        tag = "%x_%s" % (cid & 0xffffffff, t)
     elif kind == "future":
         tag = "%x_%x" % (cid & 0xffffffff, spec.serial + 1)
     elif kind == "badtag":
